@@ -4,7 +4,7 @@ TRANSLATORS = [('bf2coq.py', ['coq/Gen']), ('bfproofs.py', ['coq/Gen'])]
 GEN_FILES = ['coq/Gen/BfGen_LB.v', 'coq/Gen/BfGen_LM.v', 'coq/Gen/BfGen_BM.v', 'coq/Gen/BfProofs_LB.v', 'coq/Gen/BfProofs_LM.v', 'coq/Gen/BfProofs_BM.v']
 COQ_TARGETS = ['Properties_C15.vo']
 HARNESS_MODS = ['bf']
-RULE = ('cases: bf.ref <function> <memory> <position> / bf.set <function> <memory> <position> <value> (obs: whole memory image afterwards - neighbouring octets are canaries - and the returned '
+RULE = ('cases: bf.self cfg name class width order memory position value (model side only: the function as TRANSLATED for the little-endian/mask-swap and the big-endian/mask-swap configuration against its specification - the source of a concrete failing input when a generated proof breaks; the implementation side is the constant "agree"); bf.ref <function> <memory> <position> / bf.set <function> <memory> <position> <value> (obs: whole memory image afterwards - neighbouring octets are canaries - and the returned '
         'pointer as an offset) / bf.int <function> <value> (swaps and range predicates), for all 111 functions of binary-format.h; the model side evaluates the functions TRANSLATED from the '
         'header for the build\'s configuration (LB), i.e. this run also validates the translator on the host.  Values: all single-bit values, every octet lane x {00,01,7f,80,ff}, '
         'boundaries of each width (2^(w-1) +-1, 2^w +-1), float classes as bit patterns (zeros, subnormals, infinities, quiet/signalling NaNs with payloads), random; every alignment offset 0..7; '
@@ -81,6 +81,34 @@ def gen(rng, tier):
                 bs = [(v >> (8 * i)) & 255 for i in range(k)]
                 for order in (bs, bs[::-1]):
                     yield 'bf.ref s:bf_ref_f%d%s %s %d' % (fw, od, hexs([1] * off + order + [2]), off)
+
+    # the other two configurations (little-endian with mask swaps, big-endian with mask swaps), which the host cannot run:
+    # the translated functions against their specification, on the model side only; this is where a concrete failing input comes from
+    # when a proof of Gen/BfProofs_LM.v / BfProofs_BM.v breaks
+    for cfg in (1, 2):
+        for w in W:
+            k = w // 8; t = T(w)
+            vals = values(rng, w, False)
+            pick = vals if big else rng.sample(vals, min(len(vals), 24)) + [0, 2**w - 1, 2**(w - 1), 2**t - 1]
+            for v in pick:
+                yield 'bf.self %d s:bf_swap%d 4 %d 0 h: 0 %d' % (cfg, w, w, v)
+                if w in (24, 40, 48, 56):
+                    yield 'bf.self %d s:bf_inrange_u%d 5 %d 0 h: 0 %d' % (cfg, w, w, v)
+                    sv = v - 2**t if v >= 2**(t - 1) else v
+                    yield 'bf.self %d s:bf_inrange_s%d 6 %d 0 h: 0 %d' % (cfg, w, w, sv)
+                for oi, od in enumerate('nbl'):
+                    off = rng.randrange(4)
+                    mem = [0xA0 + i for i in range(off)] + [0xEE] * k + [0xB0, 0xB1]
+                    yield 'bf.self %d s:bf_set_u%d%s 3 %d %d %s %d %d' % (cfg, w, od, w, oi, hexs(mem), off, v)
+                    sv = v - 2**t if v >= 2**(t - 1) else v
+                    yield 'bf.self %d s:bf_set_s%d%s 3 %d %d %s %d %d' % (cfg, w, od, w, oi, hexs(mem), off, sv)
+                    bs = [(v >> (8 * i)) & 255 for i in range(k)]
+                    mem2 = [rng.randrange(256) for _ in range(off)] + bs + [rng.randrange(256) for _ in range(2)]
+                    yield 'bf.self %d s:bf_ref_u%d%s 0 %d %d %s %d 0' % (cfg, w, od, w, oi, hexs(mem2), off)
+                    yield 'bf.self %d s:bf_ref_s%d%s 1 %d %d %s %d 0' % (cfg, w, od, w, oi, hexs(mem2), off)
+                    if w in (32, 64):
+                        yield 'bf.self %d s:bf_ref_f%d%s 2 %d %d %s %d 0' % (cfg, w, od, w, oi, hexs(mem2), off)
+                        yield 'bf.self %d s:bf_set_f%d%s 3 %d %d %s %d %d' % (cfg, w, od, w, oi, hexs(mem), off, v % 2**w)
 
 def nontrivial(c):
     return True
